@@ -14,6 +14,7 @@
 #include "mpt_plot_c.hpp"
 
 #include <cfloat>
+#include <cstdarg>
 #include <functional>
 
 using namespace vp;
@@ -286,8 +287,8 @@ static bool op_walk(Ctx &c, Model &M, Live &l, int &budget, int maxsteps) {
   return false;
 }
 
-static void drive(Ctx &c, Session &S, Model &M, mpt::metatype *mt) {
-  mpt::iterator *it = meta_iterator(mt);
+static void drive(Ctx &c, Session &S, Model &M, mpt::metatype *mt, mpt::iterator *given = 0) {
+  mpt::iterator *it = given ? given : meta_iterator(mt);
   VP_CHECK(c, it, "no-iterator", "%s: the metatype does not convert to an iterator", M.what.c_str());
   std::vector<Live> L;
   L.push_back(Live{mt, it, 0, 0, false, false, 0});
@@ -301,7 +302,7 @@ static void drive(Ctx &c, Session &S, Model &M, mpt::metatype *mt) {
       case 2: op_value(c, M, L[li]); if (op_advance(c, M, L[li]) <= 0) ended = true; budget -= 2; break;
       case 3: op_reset(c, M, L[li]); --budget; c.label("op:reset"); if (!M.seen.empty()) replayed = true; break;
       case 4: {
-        if (L.size() >= 4) break;
+        if (L.size() >= 4 || !L[li].mt) break;  // (the vararg iterator is no metatype: nothing to clone)
         mpt::metatype *m2 = meta_clone(L[li].mt);
         --budget;
         c.logf("  #%d clone() @%llu -> %s", L[li].id, (unsigned long long)L[li].pos, m2 ? "new source" : "NULL");
@@ -913,8 +914,76 @@ static void run_fill(Ctx &c) {
   if (points >= 3 && ld > 1) c.nontrivial();
 }
 
+// ------------------------------------------------------------------------------------------------ vararg argument iterator
+// mpt_process_vararg(fmt, va_list, proc, ctx) (behind mpt_object_set(obj, name, fmt, ...)): the iterator over the arguments
+// only lives while `proc` runs, so the interleaving is driven from inside the callback; an oracle failure is kept and raised
+// after the library call has returned (no exception crosses library frames).
+struct VaArg { char type; double d; int32_t i; uint32_t u; };
+struct VaCtx { Ctx *c; Session *S; Model *M; bool called, failed; Fail fail; };
+static int va_proc(void *ptr, mpt::iterator *it) {
+  VaCtx *x = (VaCtx *)ptr;
+  x->called = true;
+  try { drive(*x->c, *x->S, *x->M, 0, it); }
+  catch (const Fail &f) { x->failed = true; x->fail = f; }
+  return 0;
+}
+static int va_call(const char *fmt, VaCtx *x, ...) {
+  va_list ap;
+  va_start(ap, x);
+  int r = mpt::mpt_process_vararg(fmt, ap, va_proc, x);
+  va_end(ap);
+  return r;
+}
+template <typename... A>
+static int va_expand(const char *fmt, VaCtx *x, const std::vector<VaArg> &args, A... a) {
+  if constexpr (sizeof...(A) < 5) {
+    if (sizeof...(A) < args.size()) {
+      const VaArg &g = args[sizeof...(A)];
+      switch (g.type) {
+        case 'i': return va_expand(fmt, x, args, a..., g.i);
+        case 'u': return va_expand(fmt, x, args, a..., g.u);
+        default: return va_expand(fmt, x, args, a..., g.d);
+      }
+    }
+  }
+  return va_call(fmt, x, a...);
+}
+static void run_vararg(Ctx &c) {
+  Session S;
+  Model M;
+  size_t n = c.near({1, 2, 3}, 5);
+  std::vector<VaArg> args;
+  std::vector<double> vals;
+  std::string fmt;
+  for (size_t k = 0; k < n; k++) {
+    VaArg g = {"dfiu"[c.pick(4)], 0, 0, 0};
+    Num x = draw_num(c, 0, 0);
+    double v = x.val;
+    switch (g.type) {
+      case 'i': g.i = (int32_t)c.range(0, 2000) - 1000; v = g.i; break;
+      case 'u': g.u = (uint32_t)c.near({0, 1, 65535, 2147483647}, 4000000000ull); v = g.u; break;
+      case 'f': g.d = (double)(float)x.val; v = g.d; break;
+      default: g.d = x.val; break;
+    }
+    args.push_back(g);
+    vals.push_back(v);
+    fmt.push_back(g.type);
+  }
+  bool null_fmt = !n;
+  M.what = null_fmt ? "mpt_process_vararg(NULL)" : "mpt_process_vararg(\"" + fmt + "\")";
+  M.n_lo = M.n_hi = n;
+  M.at = [vals](uint64_t k) { return k < vals.size() ? Expect{true, vals[k], 0} : Expect{false, 0, 0}; };
+  c.logf("%s ...", M.what.c_str());
+  c.label("kind:vararg-arguments");
+  VaCtx x = {&c, &S, &M, false, false, Fail()};
+  int r = va_expand(null_fmt ? 0 : fmt.c_str(), &x, args);
+  if (x.failed) throw x.fail;
+  VP_CHECK(c, r >= 0 && x.called, "wellformed-refused", "%s returns %d%s", M.what.c_str(), r, x.called ? "" : " without calling the handler");
+}
+
 static void run(Ctx &c) {
   uint8_t sel = c.u8();
+  if (sel >= 248) return run_vararg(c);
   if (sel < 110) return run_create(c);
   if (sel < 190) return run_direct(c);
   if (sel < 215) return run_text(c);
